@@ -539,7 +539,7 @@ theorem msg_get_all_enc (fs : List (String × PyVal)) (doc : Doc) (n : Str)
   | nil => simp
   | cons a b => simp
 
-theorem const_dict_get_strs (kvs : List (PyVal × PyVal)) (t : List (Str × Str))
+theorem pe_const_dict_get_strs (kvs : List (PyVal × PyVal)) (t : List (Str × Str))
     (h : kvs = t.map fun p => (.str p.1, .str p.2)) (k : Str) :
     PyRx.const_dict_get kvs (.str k) .none = .ok (match aget k t with | some r => .str r | none => .none) := by
   subst h
@@ -1156,7 +1156,7 @@ theorem parse_email_eq_model (ext : PyRt.Oracle) (data m : PyVal) (doc : Doc) (i
         exact ⟨_, rfl, _, _, rfl, rfl, hdr, unp_set hur ln vals⟩
       | true =>
         simp only [Bool.not_true, Bool.false_eq_true, if_false]
-        rw [const_dict_get_strs _ Gen.Meta.emailToRaw (by rfl)]
+        rw [pe_const_dict_get_strs _ Gen.Meta.emailToRaw (by rfl)]
         simp only [classifyV, Bool.not_true, Bool.false_eq_true, if_false]
         cases hrn : aget ln Gen.Meta.emailToRaw with
         | none =>
